@@ -174,6 +174,8 @@ def run_impl(c, timeout=3):
         with contextlib.redirect_stdout(io.StringIO()):
             kw = dict(emitter={'type': 'verif_rec'}, display_info=False, progress_bar=False,
                       emit_step=c['emit_step'], initial_global_time=c['t0'])
+            if c.get('precision') is not None:
+                kw['global_time_precision'] = c['precision']
             if n:
                 eng = Engine(processes=processes, topology=topology, **kw)
             else:
@@ -211,11 +213,33 @@ def run_impl(c, timeout=3):
 
 # ------------------------------------------------------------------ rendering
 
+SCALE = {'decimal': None}
+
+
 def tk(t):
+    p = SCALE['decimal']
+    if p is not None:
+        k = round(t * 10 ** p)
+        if t != round(k / 10 ** p, p):
+            raise ValueError('time %r is off the 10^-%d grid' % (t, p))
+        return k
     x = t * TICK
     if float(x) != int(x):
         raise ValueError('time %r is off the tick grid' % (t,))
     return int(x)
+
+
+def tkd(t):
+    """A duration or a sum of durations (the timestep handed to a process, the elapsed time a process has
+    accumulated): with a decimal grid these are float differences/sums of grid times, so they are taken to the
+    nearest grid point; a value further than 1e-6 from the grid is still an error."""
+    p = SCALE['decimal']
+    if p is None:
+        return tk(t)
+    k = round(t * 10 ** p)
+    if abs(t - k / 10 ** p) > 1e-6:
+        raise ValueError('duration %r is off the 10^-%d grid' % (t, p))
+    return k
 
 
 def r_spec(p):
@@ -240,14 +264,14 @@ def r_spec(p):
 def r_event(e):
     if e[0] == 'invoke':
         _, pid, ts, now, start, sh, own = e
-        return '(CInvoke %s %s %s %s %s %s)' % (cN(pid), cZ(tk(ts)), cZ(tk(now)), cZ(tk(start)), cZ(sh), cZ(tk(own)))
+        return '(CInvoke %s %s %s %s %s %s)' % (cN(pid), cZ(tkd(ts)), cZ(tk(now)), cZ(tk(start)), cZ(sh), cZ(tkd(own)))
     if e[0] == 'apply':
         _, pid, fin, now = e
         return '(CApply %s %s %s)' % (cN(pid), cZ(tk(fin)), cZ(tk(now)))
     if e[0] == 'emit':
         _, now, sh, owns = e
         return '(CEmit %s %s %s)' % (cZ(tk(now)), cZ(sh), clist(
-            [cpair(cN(int(k[3:])), cZ(tk(v))) for k, v in owns.items()]))
+            [cpair(cN(int(k[3:])), cZ(tkd(v))) for k, v in owns.items()]))
     if e[0] == 'after':
         _, now, fr = e
         return '(CAfter %s %s)' % (cZ(tk(now)), clist(
@@ -256,6 +280,14 @@ def r_event(e):
 
 
 def render(c, ob, variant='vfixed'):
+    SCALE['decimal'] = c.get('precision')
+    try:
+        return _render(c, ob, variant)
+    finally:
+        SCALE['decimal'] = None
+
+
+def _render(c, ob, variant='vfixed'):
     n = len(c['procs'])
     specs = clist([cpair(cN(i), r_spec(p)) for i, p in enumerate(c['procs'])])
     ps = clist([cN(i) for i in range(n)])
@@ -310,6 +342,8 @@ def oracle_all(c, ob):
             iv, kind = c['calls'][gi - 1]
             start_of_call = gtime
             end = start_of_call + iv
+            if c.get('precision') is not None:
+                end = round(end, c['precision'])
         for e in g:
             if e[0] == 'check_complete_failed':
                 out.append(('C02', 'after update() a process is not at the global time: ' + e[1], 'check-complete'))
